@@ -35,7 +35,7 @@ struct Snap {
   }
   bool sameAs(const Snap &b, bool ignoreOwner = true) const {
     return scheme == b.scheme && user == b.user && hostKind == b.hostKind &&
-           (hostKind == HK_IP4 ? memcmp(ip.data(), b.ip.data(), 4) == 0
+           (hostKind == HK_IP4 ? (memcmp(ip.data(), b.ip.data(), 4) == 0 && host == b.host)
             : hostKind == HK_IP6 ? ip == b.ip
                                  : host == b.host) &&
            port == b.port && query == b.query && frag == b.frag && absolutePath == b.absolutePath &&
